@@ -2,6 +2,7 @@ import DM.Drv.C12
 import DM.Drv.C06
 import DM.Drv.C07
 import DM.Drv.C08
+import DM.Drv.Enc
 open DM.Drv
 
 def dispatch (args : List String) : String :=
@@ -15,6 +16,9 @@ def dispatch (args : List String) : String :=
   | some r => r
   | none =>
   match c08 args with
+  | some r => r
+  | none =>
+  match encOp args with
   | some r => r
   | none => "bad-op"
 
